@@ -11,7 +11,7 @@ from ..engines import java as JV
 from ..engines.py import PyGenError, PyHarness, match
 from ..refmodel import Model
 from ..values import ValueGen
-from . import common, cxxwl, javawl, rustwl
+from . import common, cxxwl, javawl, pywl, rustwl
 
 RULE = ("generator descriptions whose constructs at least two backends support (declarations a backend cannot take "
         "are dropped for that backend only), both endiannesses; per type one table of in-range values is serialized "
@@ -169,7 +169,10 @@ def worker(task):
                 for r in cx.parse(tid, blist, "asan"):
                     o.append(("crash", None) if "crash" in r else ("ok", r.get("value")) if r.get("valid") else ("rej", None))
                 outs["cxx"] = o
-            if jv and tid in have.get("java", ()) and not is_struct:
+            intermediate = bool(m.dm[tid].get("parent_id")) and A.get_payload(m.dm[tid]) is not None
+            if jv and tid in have.get("java", ()) and not is_struct and not intermediate:
+                # (an intermediate child is an abstract Java class: its static fromBytes is the root's, there
+                # is no parser *of that type* to compare with)
                 o = []
                 for r in jv.parse(tid, blist):
                     o.append(("crash", None) if (r.get("timeout") or r.get("crash")) else ("ok", r.get("ok")) if "ok" in r else ("rej", None))
@@ -191,6 +194,9 @@ def worker(task):
                 dis = judge(m, tid, acc, lambda p, q: p == q, "parse", "acceptance-differs", V,
                             dict({"type": tid, "hex": b.hex(), "input_class": tag}, **acc), hint=acc_hint)
                 if not dis and all(o[0] == "ok" for o in live.values()):
+                    # nested struct fields whose type has children come back as the parent value (Rust) or as
+                    # the most specialized child object (Python, Java): their `payload` is not comparable
+                    live = {x: (o[0], pywl._relax_nested(m, tid, o[1])) for x, o in live.items()}
                     judge(m, tid, {x: o[1] for x, o in live.items()}, same_values, "parse", "values-differ", V,
                           dict({"type": tid, "hex": b.hex(), "input_class": tag}, **{x: o[1] for x, o in live.items()}))
         if rcl:
